@@ -234,11 +234,14 @@ def monitor_c06(sc, obs):
     v = []
     ents, _ = _ents(sc)
     plain = {}
+    cyc, off, cbs_of = {}, {}, {}
     for d, e in ents.items():
         if e['kind'] in ('processor', 'handler'):
-            cbs = [c[0] for c in e.get('on_receive', [])]
-            if 'set_cycle' not in cbs and 'offset_next' not in cbs:
-                plain[d] = e['cycle']
+            plain[d] = e['cycle']
+            cyc[d], off[d] = e['cycle'], 0
+            cbs_of[d] = [c for c in e.get('on_receive', []) if c[0] in ('set_cycle', 'offset_next')]
+    unknown = set()
+    expect = {}       # (d, part) -> cycle time in effect when the part was accepted (receive callbacks included, one-shot offset floored at 0)
     accept = {}       # (d, part) -> time
     finished = set()
     down = {d: [] for d in plain}       # shutdown intervals [start, end or None]
@@ -261,14 +264,27 @@ def monitor_c06(sc, obs):
             shut_prev[d] = s
         if aborted:
             continue
+        for u in o.get('uops', []):
+            if u[0] == 'offset' and u[1] in plain:
+                if o['op'][0] == 'run':
+                    unknown.add(u[1])      # its order relative to the receives of that run is not observable
+                off[u[1]] += u[2]
         for r in o['data']:
             lab, d = r[0], r[1]
-            if d not in plain:
+            if d not in plain or d in unknown:
                 continue
             if lab == 7:
                 if (d, r[4]) in finished:
                     _bad(v, 'C06/finished-twice', 'op %d: device %d finished part %d twice' % (i, d, r[4]))
                 finished.add((d, r[4]))
+            if lab == 6:
+                for c in cbs_of[d]:
+                    if c[0] == 'set_cycle':
+                        cyc[d] = c[1]
+                    else:
+                        off[d] += c[1]
+                expect[(d, r[4])] = max(0, cyc[d] + off[d])
+                off[d] = 0
             if o['op'][0] == 'run':
                 continue
             if lab == 6:
@@ -284,9 +300,9 @@ def monitor_c06(sc, obs):
                 for a, b in down[d]:
                     b2 = r[3] if b is None else b
                     dt += max(0, min(b2, r[3]) - max(a, t0))
-                if r[3] - t0 != plain[d] + dt:
+                if r[3] - t0 != expect.get(key, plain[d]) + dt:
                     _bad(v, 'C06/cycle-time', 'op %d: device %d released part %d after %d/8 (accepted %d, finished %d), cycle time %d/8 + shutdown time %d/8' % (
-                        i, d, r[4], r[3] - t0, t0, r[3], plain[d], dt))
+                        i, d, r[4], r[3] - t0, t0, r[3], expect.get(key, plain[d]), dt))
     # sources need their full cycle time per part; sinks accept no sooner than their cycle time after the previous part
     sup, rec = {}, {}
     for i, o in enumerate(obs):
@@ -395,6 +411,10 @@ def monitor_c11(sc, obs):
                 if _time_may_advance(o) and not e.get('part') and not e['shut']:
                     _bad(v, 'C11/idle-holding', 'op %d %s (t=%d): idle operational processor %d still holds %s when time advances' % (
                         i, o['op'], o['now'], d, e['reserved']))
+        for a, d in o.get('fired', []):
+            if a == 3 and d in o['devices'] and o['devices'][d].get('reserved') is not None and \
+                    (o['op'][0] == 'step' or (o['devices'][d]['shut'] and not o['devices'][d].get('part'))):
+                _bad(v, 'C11/failure-keeps-resources', 'op %d (t=%d): processor %d failed and still holds %s' % (i, o['now'], d, o['devices'][d]['reserved']))
         for n, u, c in o['pools']:
             if u != held.get(n, 0):
                 _bad(v, 'C11/usage-neq-holdings', 'op %d %s: pool r%d usage %d/8 but processors hold %d/8' % (i, o['op'], n, u, held.get(n, 0)))
@@ -457,7 +477,22 @@ def monitor_c13(sc, obs):
                             _bad(v, 'C13/failure-not-reported', 'op %d (t=%d): failure of processor %d (lost part %d) reached its shutdown callbacks %d times%s' % (
                                 i, o['now'], d, want, len(new), '' if not new else ' with part %d' % new[0][5]))
         prev = o
+    _c13_stuck(sc, obs, v)
     return v
+
+
+def _c13_stuck(sc, obs, v):
+    ents, _ = _ents(sc)
+    was_down = set()
+    for o in obs:
+        for d, e in o['devices'].items():
+            if e['kind'] == 3 and e.get('shut'):
+                was_down.add(d)
+    for x in monitor_c03(sc, obs):
+        import re
+        m = re.search(r'device (\d+) holds ready part', x['what'])
+        if m and int(m.group(1)) in was_down:
+            _bad(v, 'C13/finished-part-stuck', 'a finished part kept through an outage does not leave after restoration: ' + x['what'])
 
 
 # ------------------------------------------------------------------------------------------ C15
@@ -466,6 +501,7 @@ def monitor_c15(sc, obs):
     ents, _ = _ents(sc)
     last_level, last_pool = {}, {}
     counts = Counter()
+    fails = Counter()
     has_batches = any(e['kind'] == 'batcher' or e.get('gen_batch', 0) > 0 for e in sc['entities'])
     for i, o in enumerate(obs):
         for r in o['data']:
@@ -476,8 +512,14 @@ def monitor_c15(sc, obs):
             counts[(r[0], r[1])] += 1
             if r[0] in (6, 7, 8, 9, 10) and r[3] > o['now']:
                 _bad(v, 'C15/timestamp', 'op %d: a record carries time %d after the current time %d' % (i, r[3], o['now']))
+        for a, d in o.get('fired', []):
+            if a == 3:
+                fails[d] += 1
         if o['st'] not in (0, 2, 3):
             return v
+        for d in fails:
+            if counts[(8, d)] != fails[d]:
+                _bad(v, 'C15/failure-record', 'op %d (t=%d): processor %d failed %d time(s), there are %d device_failure records' % (i, o['now'], d, fails[d], counts[(8, d)]))
         for d, e in o['devices'].items():
             if e['kind'] == 4 and d in last_level and last_level[d] != e['level']:
                 _bad(v, 'C15/level-record', 'op %d %s: last recorded level of buffer %d is %d, its level is %d' % (i, o['op'], d, last_level[d], e['level']))
@@ -526,6 +568,12 @@ def monitor_c17(sc, obs):
     for i, o in enumerate(obs):
         if o['st'] not in (0, 2, 3):
             return v
+        for d, e in o['devices'].items():
+            if e['kind'] == 4:
+                stored = sum(len(it['leaves']) for _, it in e['buf']) + (len(e['part']['leaves']) if e.get('part') else 0)
+                if e['level'] != stored:
+                    _bad(v, 'C17/buffer-level', 'op %d (t=%d): buffer %d reports level %d, it stores %d parts (every part of a batch counts)' % (i, o['now'], d, e['level'], stored))
+                    return v
         for d, e in o['devices'].items():
             if e['kind'] != 7:
                 continue
